@@ -436,6 +436,66 @@ def rw_R8_closure_underscore(toks, report):
     return out
 
 
+def rw_R7_try_into_expect(toks, report):
+    """R7a: `RECV.try_into().expect("..")` (slice -> array conversion that cannot fail when the length is
+    right) becomes `verif_try_into_array(&RECV)`, a preamble wrapper whose PRECONDITION is the length match —
+    so the absence of the panic is proved, not assumed."""
+    out = list(toks)
+    i = 0
+    while i < len(out):
+        t = out[i]
+        if t.kind == PUNCT and t.text == ".":
+            j = _next_sig(out, i)
+            if j < len(out) and out[j].kind == IDENT and out[j].text == "try_into":
+                k = _next_sig(out, j)
+                if k < len(out) and out[k].text == "(":
+                    ke = match_close(out, k)
+                    d = _next_sig(out, ke)
+                    e = _next_sig(out, d) if d < len(out) else d
+                    if d < len(out) and out[d].text == "." and e < len(out) and out[e].kind == IDENT and out[e].text == "expect":
+                        g = _next_sig(out, e)
+                        if g < len(out) and out[g].text == "(":
+                            ge = match_close(out, g)
+                            # receiver: postfix chain backwards from i
+                            r = _prev_sig(out, i)
+                            start = None
+                            while r >= 0:
+                                tr = out[r]
+                                if tr.kind == PUNCT and tr.text in ("]", ")"):
+                                    depth = 0
+                                    q = r
+                                    while q >= 0:
+                                        if out[q].kind == PUNCT and out[q].text in CLOSE:
+                                            depth += 1
+                                        elif out[q].kind == PUNCT and out[q].text in OPEN:
+                                            depth -= 1
+                                            if depth == 0:
+                                                break
+                                        q -= 1
+                                    start = q
+                                    r = _prev_sig(out, q)
+                                    continue
+                                if tr.kind in (IDENT, NUM):
+                                    start = r
+                                    r2 = _prev_sig(out, r)
+                                    if r2 >= 0 and out[r2].kind == PUNCT and out[r2].text == ".":
+                                        r = _prev_sig(out, r2)
+                                        continue
+                                    if r2 >= 1 and out[r2].text == ":" and out[_prev_sig(out, r2)].text == ":":
+                                        r = _prev_sig(out, _prev_sig(out, r2))
+                                        continue
+                                    break
+                                break
+                            if start is not None:
+                                recv = text_of(out[start:i]).strip()
+                                out[start:ge + 1] = [T("raw", f"verif_try_into_array(&{recv})")]
+                                report.append(("R7a", f"`{recv}.try_into().expect(..)` -> verif_try_into_array(&{recv})"))
+                                i = start + 1
+                                continue
+        i += 1
+    return out
+
+
 def rw_R1c_format(toks, report):
     """R1c: `format!(..)` -> `verif_fmt()`."""
     out = []
@@ -1185,6 +1245,8 @@ def _build_fn(sf: SourceFile, item: Item, impl, ex: Extract, props, rep, unit, a
         body_toks = rw_R1c_format(body_toks, rep)
     if "R8" in rules:
         body_toks = rw_R8_closure_underscore(body_toks, rep)
+    if "R7a" in rules:
+        body_toks = rw_R7_try_into_expect(body_toks, rep)
 
     # inserts are located on the *pre-replace* token stream? No: after R1/R2 but before
     # explicit replaces, so anchors are written against (almost) original text.
@@ -1298,7 +1360,10 @@ def _build_fn(sf: SourceFile, item: Item, impl, ex: Extract, props, rep, unit, a
                     raise AnchorLost(f"{qual}: implreplace text not found: {old!r}")
                 rep.append(("implreplace", f"{old!r} => {new!r}"))
                 ih = ih2
-        lines.append(ih + " {")
+        if ih.strip() == "":
+            impl = None     # emitted as a free function
+        else:
+            lines.append(ih + " {")
     if stub:
         lines.append("#[verifier::external_body]")
     lines.append(hdr)
